@@ -28,6 +28,7 @@
 #include <unistd.h>
 #include <fcntl.h>
 #include <signal.h>
+#include <time.h>
 #include <sys/time.h>
 
 extern const char *verif_harness;
@@ -353,8 +354,16 @@ inline void record_failure(const uint32_t *p, size_t n, const Outcome &o) {
 			"property=" + o.prop + "\nfailure: " + o.msg + "\ncase: " + o.desc);
 }
 
+// Shrinking is bounded: after the first failure at most 40000 further executions / 40 s of CPU
+// time are spent; beyond that every candidate is reported as passing, which ends rapidcheck's
+// shrink search at the smallest failing tape found so far (that tape is already on disk).
 inline int rc_cb(const uint32_t *p, size_t n, void *) {
+	static uint64_t shrink_runs = 0; static clock_t first_fail = 0; static bool failed = false;
+	if(failed) {
+		if(++shrink_runs > 40000 || (clock() - first_fail) / CLOCKS_PER_SEC > 40) return 0;
+	}
 	Outcome o = run_one(p, n);
+	if(o.code == 1 && !failed) { failed = true; first_fail = clock(); }
 	if(o.code == 1) { record_failure(p, n, o); return 1; }
 	return 0;
 }
